@@ -41,6 +41,7 @@ pub struct Emphasis {
     pub mutate: u64,   // per-mille of transactions mutated
     pub pool_ops: u64, // weight of swap/deposit/withdraw
     pub stake_ops: u64,
+    pub mint_ops: u64,
     pub blocks: u64,   // blocks per history
     pub chain_ops: bool,
 }
@@ -132,17 +133,26 @@ impl<'a> Hist<'a> {
             let k: u8 = tx.kind.into();
             self.bump(&format!("txkind:{:02x}", k));
         }
+        let approvals = self.w.approvals.clone();
         match res {
             Ok(Ok(())) => {
-                // rejection must be a no-op on the original: checked by the oracle module; here the new state
                 let dump = dump_unsealed(&st, &self.w.names);
                 self.out.emit(&line, &format!("ok {}", dump));
+                // C04: every input of an accepted batch is approved by its covenant, evaluated independently
+                let bad: Vec<String> = approvals.iter().filter(|a| a.2 != Some(true)).map(|a| format!("tx{}.in{}={:?}", a.0, a.1, a.2)).collect();
+                self.out.fact("C04", "independent-covenant-evaluation", bad.is_empty(), &bad.join(" "));
+                self.batch_order_facts(&s, txs, Some(&dump));
                 self.w.unsealed.insert(dst.clone(), st);
                 self.bump(&format!("batch-ok:{}", label));
                 Some(dst)
             }
             Ok(Err(e)) => {
                 self.out.emit(&line, &format!("err {}", err_text(&e)));
+                // C02: a rejected batch leaves the state exactly as it was
+                let same = dump_unsealed(&st, &self.w.names) == dump_unsealed(&s, &self.w.names)
+                    && silent(|| st.clone().seal(None).header()).ok() == silent(|| s.clone().seal(None).header()).ok();
+                self.out.fact("C02", "reject-noop", same, err_text(&e));
+                self.batch_order_facts(&s, txs, None);
                 self.bump(&format!("batch-err:{}:{}", label, err_text(&e)));
                 None
             }
@@ -150,6 +160,63 @@ impl<'a> Hist<'a> {
                 self.out.emit(&line, "panic");
                 self.bump(&format!("batch-panic:{}", label));
                 None
+            }
+        }
+    }
+
+    /// C03: every permutation of a small batch gives the same verdict and the same state; an accepted
+    /// batch equals applying its transactions one at a time in dependency order.
+    pub fn batch_order_facts(&mut self, s: &UnsealedState<Cas>, txs: &[Transaction], accepted_dump: Option<&String>) {
+        if txs.len() < 2 || txs.len() > 4 {
+            return;
+        }
+        let n = txs.len();
+        let mut idx: Vec<usize> = (0..n).collect();
+        let mut perms: Vec<Vec<usize>> = vec![];
+        permute(&mut idx, 0, &mut perms);
+        let mut bad = vec![];
+        for p in perms.iter().skip(1) {
+            let ptx: Vec<Transaction> = p.iter().map(|i| txs[*i].clone()).collect();
+            let mut c = s.clone();
+            let r = silent(|| c.apply_tx_batch(&ptx));
+            let _ = melvm::verif_hooks::take_log();
+            let verdict = match (&r, accepted_dump) {
+                (Ok(Ok(())), Some(d)) => dump_unsealed(&c, &self.w.names) == **d,
+                (Ok(Err(_)), None) => true,
+                _ => false,
+            };
+            if !verdict {
+                bad.push(format!("perm{:?}", p));
+            }
+        }
+        self.out.fact("C03", "permutation-invariance", bad.is_empty(), &bad.join(" "));
+        if let Some(d) = accepted_dump {
+            // dependency order: a transaction follows those whose outputs it spends
+            let hashes: Vec<TxHash> = txs.iter().map(|t| t.hash_nosigs()).collect();
+            let mut order: Vec<usize> = vec![];
+            let mut left: Vec<usize> = (0..n).collect();
+            while !left.is_empty() {
+                let pos = left.iter().position(|i| {
+                    txs[*i].inputs.iter().all(|inp| !left.iter().any(|j| j != i && hashes[*j] == inp.txhash))
+                });
+                match pos {
+                    Some(p) => order.push(left.remove(p)),
+                    None => break,
+                }
+            }
+            if left.is_empty() {
+                let mut c = s.clone();
+                let mut ok = true;
+                for i in &order {
+                    let r = silent(|| c.apply_tx(&txs[*i]));
+                    if !matches!(r, Ok(Ok(()))) {
+                        ok = false;
+                        break;
+                    }
+                }
+                let _ = melvm::verif_hooks::take_log();
+                let same = ok && dump_unsealed(&c, &self.w.names) == **d;
+                self.out.fact("C03", "batch-equals-sequential", same, &format!("order{:?} all-accepted={}", order, ok));
             }
         }
     }
@@ -252,12 +319,21 @@ impl<'a> Hist<'a> {
                 self.w.names.reg_height(block.header.height.0);
                 let dump = dump_unsealed(ns.verif_inner(), &self.w.names);
                 self.out.emit(&line, &format!("ok {}", dump));
+                // C06: the returned state has precisely the block's header; a mutated block is not accepted
+                let hdr_ok = silent(|| ns.header()).ok() == Some(block.header);
+                self.out.fact("C06", "accepted-state-has-block-header", hdr_ok, label);
+                if label != "honest" {
+                    self.out.fact("C06", "mutated-block-accepted", false, label);
+                }
                 self.w.sealed.insert(dst.clone(), ns);
                 self.bump(&format!("block-ok:{}", label));
                 Some(dst)
             }
             Ok(Err(e)) => {
                 self.out.emit(&line, &format!("err {}", err_text(&e)));
+                if label == "honest" {
+                    self.out.fact("C06", "honest-block-rejected", false, err_text(&e));
+                }
                 self.bump(&format!("block-err:{}:{}", label, err_text(&e)));
                 None
             }
@@ -300,9 +376,12 @@ impl<'a> Hist<'a> {
         let pools: SmtMapping<Cas, PoolKey, PoolState> = SmtMapping::new(p.pools.clone());
         let known: Vec<PoolKey> = self.w.names.poolkeys.iter().filter(|k| k.left().to_bytes() < k.right().to_bytes()).cloned().collect();
         let cx = Ctx { height: p.height.0, network: p.network, mult: p.fee_multiplier, coins: &wcoins, pools: &pools, known_pools: &known };
-        let total_w = 40 + em.pool_ops * 3 + em.stake_ops + 8;
+        let hist: SmtMapping<Cas, BlockHeight, Header> = SmtMapping::new(p.history.clone());
+        let total_w = 40 + em.pool_ops * 3 + em.stake_ops + 8 + em.mint_ops;
         let pick = r.below(total_w);
-        let (tx, label): (Option<Transaction>, &str) = if pick < 40 {
+        let (tx, label): (Option<Transaction>, &str) = if pick >= total_w - em.mint_ops {
+            (gen_doscmint(r, &mut self.wallet, &cx, &hist), "doscmint")
+        } else if pick < 40 {
             (gen_normal(r, &mut self.wallet, &cx), "normal")
         } else if pick < 40 + em.pool_ops {
             (gen_swap(r, &mut self.wallet, &cx), "swap")
@@ -369,6 +448,18 @@ impl<'a> Hist<'a> {
             labels.push("repeat-tx".into());
         }
         (txs, labels.join("/"))
+    }
+}
+
+fn permute(idx: &mut Vec<usize>, k: usize, out: &mut Vec<Vec<usize>>) {
+    if k == idx.len() {
+        out.push(idx.clone());
+        return;
+    }
+    for i in k..idx.len() {
+        idx.swap(k, i);
+        permute(idx, k + 1, out);
+        idx.swap(k, i);
     }
 }
 
@@ -441,7 +532,8 @@ pub fn rand_fab(r: &mut Rng, wallet: &mut Wallet) -> FabSpec {
     }
     let mut history = vec![];
     if height > 0 {
-        history.push((height - 1, 1_000_000 + r.below(1000) as u128));
+        let prev_speed = if r.chance(1, 2) { 1 + r.below(20) as u128 } else { 1_000_000 + r.below(1000) as u128 };
+        history.push((height - 1, prev_speed));
     }
     for (_, c) in &coins {
         if c.height.0 < height && !history.iter().any(|(h, _)| *h == c.height.0) {
